@@ -10,7 +10,11 @@ NA = {}       # pid -> reason
 def claim(pid, category, text, note, technique, design_ref):
     CLAIMS[pid] = dict(category=category, text=text, note=note, technique=technique, design_ref=design_ref)
 
+PENDING = set()   # built but temporarily not claimed (being adapted)
 exec(open(os.path.join(HERE, 'tools', 'claims.py')).read())
+for _p in PENDING:
+    CLAIMS.pop(_p, None)
+    NA[_p] = 'check built (contracts/%s.py) but being adapted to a repair commit in /repo at the time of this commit; not claimed until it is green again' % _p.lower()
 
 checks = []
 for p in props:
